@@ -70,6 +70,11 @@ func gadgetSpace() []expr.Expr {
 		// conditional's own width), with branches that fit
 		expr.NewLess(expr.NewRegLoad("r1", 2), ir.ConstU(0x0100, 2), ir.ConstU(1, 1), ir.ConstU(0, 1), 1),
 		expr.NewLess(expr.NewRegLoad("r2", 4), expr.NewRegLoad("r1", 4), ir.ConstU(0x0201, 2), expr.NewRegLoad("r2", 1), 2),
+		// right shifts by a constant number of BITS that is no whole number of bytes (what is known
+		// to be zero afterwards ends inside a byte), and a left shift of a narrower value
+		expr.NewBinary(expr.Rsh, expr.NewRegLoad("r1", 2), ir.ConstU(1, 1), 2),
+		expr.NewBinary(expr.Rsh, expr.NewRegLoad("r1", 4), ir.ConstU(9, 1), 4),
+		expr.NewBinary(expr.Lsh, expr.NewRegLoad("r1", 1), ir.ConstU(7, 1), 2),
 	}
 	gw := []expr.Width{1, 2, 3, 4}
 	var chains []expr.Expr
